@@ -196,6 +196,25 @@ def run(ck):
         ck.ob('C28.limiter', 'C28.limiter/%s/prune' % lname, okp and len(erase) >= 1, fn.loc(),
               '%s prunes exactly the entries with now - t > %s before counting' % (lname, win_q))
 
+    # ---- (limiter) the histories belong to their limiter: nothing else adds, removes or hands back an entry -------------------------
+    # (an entry leaves a history only by ageing out of the window inside the limiter; a "refund" on refusal lets a client keep
+    # its slots free with cheap refused requests and exceed the burst limit with accepted ones)
+    from sa.flow import field_accesses as _fa28
+    for hist, owner in (('store_history_', 'allow_store_request'), ('fetch_history_', 'allow_stream_fetch')):
+        users = {}
+        for f in P.fns:
+            for i, m_, w_ in _fa28(f):
+                if m_ == IMPL + hist:
+                    users.setdefault(f.q, f.loc(i))
+        if not users:
+            if hist == 'store_history_':
+                raise AnalysisBroken('no function uses %s' % hist)
+            continue
+        allowed = {IMPL + owner}
+        others = sorted(q for q in users if q not in allowed and not q.startswith(IMPL + owner + '::$') and P.fn(q).kind not in ('ctor', 'dtor'))
+        ck.ob('C28.limiter', 'C28.limiter/%s/sole-owner' % hist, not others, users[others[0]] if others else P.fn(IMPL + owner).loc(),
+              '%s is touched only by %s (found also: %s)' % (hist, owner, ', '.join(q.replace(IMPL, '') for q in others) or 'nothing'))
+
     # ---- numeric headers are parsed without wrap-around: a PAYLOAD-LENGTH / TTL of 2^64 + k must be refused, not read as k -----------
     from sa.absint2 import Analyzer, summarize, report
     pu = [f for f in P.fns if f.q.endswith('::parse_uint64')]
